@@ -1,12 +1,15 @@
 (* C03 (conservation): the order certificate for the regenerated table. *)
 From Coq Require Import List Bool Arith.
 Import ListNotations.
-Require Import Kinds Table TableFacts DenseDefs OrdDefs ConserveDefs.
+Require Import Kinds Table TableFacts ShapeDefs ShapeCert DenseDefs OrdDefs ConserveDefs.
+
+(* a #DocStringSeparator matched in a doc-string state is a closing delimiter: it carries no content *)
+Definition csl (s : nat) (k : kind) : bool := kind_beq k KDocStringSeparator && is_ds dstates s.
 
 Definition kappa : dmap :=
-  Eval vm_compute in orounds cpat crfree ctfree cxr table 60 [(start_state, [aframe0])].
+  Eval vm_compute in orounds cpat crfree ctfree cxr cfo table csl 60 [(start_state, [aframe0])].
 
-Lemma kappa_ok : ord_ok cpat crfree ctfree cxr table start_state kappa = true.
+Lemma kappa_ok : ord_ok cpat crfree ctfree cxr cfo table csl start_state kappa = true.
 Proof. vm_compute. reflexivity. Qed.
 Lemma kappa_ends : ord_ends table kappa = true.
 Proof. vm_compute. reflexivity. Qed.
